@@ -84,6 +84,7 @@ def assign_segs(rng, behs):
         for st in beh:
             if st["a"] == "call":
                 st["arg"]["seg"] = rng.choice([0, 0, 1, 2, 3, 4, 5])
+                st["arg"]["emp"] = rng.choice([0, 0, 1, 1, 2, 3, 4])     # zero-length parts in the vector
     return behs
 
 
@@ -97,7 +98,8 @@ def short_strings(maxlen):
 def run_step(rng, kind, data, action="run"):
     return [{"a": action, "arg": {"kind": kind, "m": 0, "data": data,
                                   "chunk": rng.choice([0, 0, 1, 1, 2, 3, 7, 64, 255]),
-                                  "seg": rng.choice([0, 0, 1, 2, 3, 4, 5]),
+                                  "seg": rng.choice([0, 0, 1, 1, 2, 3, 4, 5]),
+                                  "emp": rng.choice([0, 0, 1, 1, 2, 3, 4]),
                                   "mis": rng.randrange(16), "grant": rng.choice([1, 2, 3, 8, 64]),
                                   "slack": rng.choice([0, 0, 1, 2, 5]), "maxres": 64,
                                   # qrun: size the decode ring is kept at while the data fits (0: grows with each chunk)
@@ -173,10 +175,11 @@ def schedules(ck, frames, n):
                     beh.append({"a": "peek", "arg": {"x": 0}})
                 elif r < 0.45:
                     beh.append({"a": "grant", "arg": {"k": rng.choice([1, 2, 8, 64]), "cond": 1}})
-                beh.append({"a": "call", "arg": {"seg": rng.choice([0, 0, 1, 2, 3, 4, 5]), "mis": rng.randrange(16)}})
+                beh.append({"a": "call", "arg": {"seg": rng.choice([0, 0, 1, 2, 3, 4, 5]), "mis": rng.randrange(16),
+                                                 "emp": rng.choice([0, 1, 2, 3, 4])}})
         for _ in range(6):
             beh.append({"a": "grant", "arg": {"k": 16, "cond": 1}})
-            beh.append({"a": "call", "arg": {"seg": rng.choice([0, 2, 3]), "mis": rng.randrange(16)}})
+            beh.append({"a": "call", "arg": {"seg": rng.choice([0, 2, 3]), "mis": rng.randrange(16), "emp": rng.choice([0, 1, 2])}})
         behs.append(beh)
     return behs
 
